@@ -118,8 +118,13 @@ class Rec:
         ff = os.environ.get(FAIL_ENV)
         if ff and os.path.exists(ff):
             with open(ff) as fh:
-                if c in json.load(fh):
-                    raise ValueError('boom')
+                spec = json.load(fh)
+            # a list of codes (ValueError), or {'codes': [...], 'exc': name}: user functions fail in many ways, and some
+            # exception classes mean something to the machinery around them (StopIteration ends an iteration silently)
+            codes, exc = (spec, 'ValueError') if isinstance(spec, list) else (spec['codes'], spec.get('exc', 'ValueError'))
+            if c in codes:
+                raise {'ValueError': ValueError, 'StopIteration': StopIteration, 'KeyError': KeyError, 'RuntimeError': RuntimeError,
+                       'ZeroDivisionError': ZeroDivisionError, 'OSError': OSError}[exc]('boom')
         out = render(self.spec['kind'], c + self.spec.get('offset', 0))     # offset: a *different* function on the same arguments
         if self.spec.get('as_np'):
             # the function hands back numpy arrays (dtype int64 / bool / <U.. / float64 by leaf) instead of nested lists
